@@ -10,7 +10,7 @@
 From Coq Require Import String.
 From Coq Require Import List NArith ZArith Bool Lia.
 From Dials Require Import Base.Outcome Base.Runes Reflect.Ty Reflect.Ptrify Stack.Overlay Text.CaseConv
-  Text.ParseText Sources.Flatten Sources.FlattenSpec Sources.FlattenProofs Sources.Env Sources.EnvSpec
+  Text.ParseInt Text.ParseText Sources.Flatten Sources.FlattenSpec Sources.FlattenProofs Sources.Env Sources.EnvSpec
   Sources.EnvProofs Sources.EnvGuards Sources.Flags Sources.FlagsProofs.
 Import ListNotations.
 Open Scope list_scope.
@@ -209,6 +209,10 @@ Proof.
 Qed.
 
 (* ---- integer slices accumulate like string slices ---- *)
+Definition int_slice (sg : bool) (b : N) (t : str) : outcome (list val) :=
+  if sg then omap (map VInt) (signed_slice (sw_of b) t)
+  else omap (map (fun n => VInt (Z.of_N n))) (unsigned_slice (uw_of b) t).
+
 Lemma set_all_intslice sg b : forall texts st vss,
   Forall2 (fun t vs => int_slice sg b t = Ok vs) texts vss -> texts <> [] ->
   exists st', set_all (FkIntSlice sg b) st texts = Ok st' /\
@@ -219,7 +223,7 @@ Proof.
   inversion HF as [|? vs ? vss' Ht HF']; subst.
   change (set_all (FkIntSlice sg b) st (t :: texts))
     with (st'' <- flag_set (FkIntSlice sg b) st t ;; set_all (FkIntSlice sg b) st'' texts).
-  unfold flag_set at 1. rewrite Ht. simpl obind.
+  unfold flag_set at 1. unfold int_slice in Ht. rewrite Ht. simpl obind.
   destruct texts as [|t2 texts].
   - inversion HF'; subst. simpl. rewrite app_nil_r. eauto.
   - destruct (IH (mkFstate (VList ((if st_defaulted st then [] else vlist_of (st_val st)) ++ vs)) false) vss' HF')
